@@ -500,6 +500,7 @@ def showOuts (l : List (OutPage Int)) : String := "[" ++ ";".intercalate (l.map 
   `c18.expns [p/q,…]`     `int(np.round(1e6 * x))` for each double `x` read from that key
   `c18.exprt [e,…]`       write the key for `e` ns, read it back: the ns the reader gets
   `c18.kymorange [s…] [e…]`  `Kymo._tiff_timestamp_ranges` from the line ranges: `a:b` or `ValueError`
+  `c18.kymoexp [s…] [e…]`  the "Exposure time (ms)" of a kymograph from its line ranges without dead time: `[p/q]`
   `c18.export <h> <w> [starts] [stops] [expStops] <legacy T/F> <again T/F> op…`
         run the selection program on a fresh stack over these pages (raw pixels = identifiers), export;
         with `again = T` the result is read back (exposure through the float64 millisecond key), opened as a fresh stack and exported a second time;
@@ -543,6 +544,12 @@ def handle : List String → Option String
     if s.length ≠ e.length then none
     else match kymoRange (s.zip e) with
       | some r => some (toString r.1 ++ ":" ++ toString r.2)
+      | none => some "ValueError"
+  | ["c18.kymoexp", s, e] => do
+    let s ← intList? s; let e ← intList? e
+    if s.length ≠ e.length then none
+    else match kymoRange (s.zip e) with
+      | some r => some (showRatList [exposureMs (r.2 - r.1)])
       | none => some "ValueError"
   | "c18.export" :: h :: w :: starts :: stops :: exps :: legacy :: again :: prog => do
     let h ← nat? h; let w ← nat? w
